@@ -13,6 +13,15 @@ Require Export Verif.Model.C05 Verif.Spec.C05.
 Inductive case :=
 | CRun (n : nat) (kinds : list kind) (order : list nat) (parent : option nat)
        (req : request) (seen : list request) (o : result)
+(* a run in which the attempts answer at once and the arrival order is NOT imposed (used
+   where one middleware instance serves several calls at the same time and the dequeue
+   hook cannot be attributed to a call); no silent attempts, parent alive.  What is
+   compared (response class, presence of an error, membership) does not depend on the
+   order, so the model is evaluated on the spawn order *)
+| CFree (n : nat) (kinds : list kind) (req : request) (seen : list request) (o : result)
+(* the caller's own request after the call (attempts that write to the maps of the request
+   THEY were handed must not be visible to the caller): everything but the body reader *)
+| CCaller (req after : request)
 (* a schedule the harness could not impose on this machine (budget elapsed before all
    messages were released, six times in a row): nothing was observed, nothing is judged *)
 | CSkipped (why : string).
@@ -55,9 +64,8 @@ Fixpoint mset_eqb {A} (f : A -> A -> bool) (a b : list A) : bool :=
   | x :: r => match remove_first f x b with Some b' => mset_eqb f r b' | None => false end
   end.
 
-Definition check_case (c : case) : bool * bool :=
-  match c with
-  | CRun n kinds order parent req seen o =>
+Definition check_run (n : nat) (kinds : list kind) (order : list nat) (parent : option nat)
+           (req : request) (seen : list request) (o : result) : bool * bool :=
       let evs := match parent with
                  | None => events kinds order
                  | Some k => events_parent n kinds order k end in
@@ -67,7 +75,16 @@ Definition check_case (c : case) : bool * bool :=
        match parent with
        | None => spec_b (produced kinds) o
        | Some _ => spec_parent_b (produced kinds) o
-       end && requests_b n req seen)
+       end && requests_b n req seen).
+
+Definition check_case (c : case) : bool * bool :=
+  match c with
+  | CRun n kinds order parent req seen o => check_run n kinds order parent req seen o
+  | CFree n kinds req seen o =>
+      let '(a, b) := check_run n kinds (nonsilent_slots kinds) None req seen o in
+      (a && Nat.eqb (silent_count kinds) 0, b)
+  | CCaller req after =>
+      let ok := req_eqb (with_body after None) (with_body req None) in (ok, ok)
   | CSkipped _ => (true, true)
   end.
 
